@@ -24,6 +24,7 @@ structure UgmSt where
   live : List UgAlloc := []
   offc : Bool := false          -- an off-contract call happened: accounting clauses are off for the rest of the case
   groupDrop : Bool := false     -- a reload took a limit of a group tracker away while it tracked applications
+  hypOk : Bool := true          -- every reload of the case met the hypotheses of limits_follow_config_reload_partial
 
 def ugList {α} (f : Json → Except String α) (j : Json) : Except String (List α) := do
   let a ← jArr j
@@ -278,6 +279,7 @@ def ugmStep (st : UgmSt) (j : Json) : Except String (UgmSt × String) := do
   let mut cfg := st.cfg
   let mut live := st.live
   let mut groupDrop := st.groupDrop
+  let mut hypOk := st.hypOk
   let mut resultDiff : Option String := none
   let mut admitted := false
   let mut orderDep := false
@@ -286,6 +288,11 @@ def ugmStep (st : UgmSt) (j : Json) : Except String (UgmSt × String) := do
   | "conf" =>
     let c ← (fld j "cfg") >>= ugCfg []
     groupDrop := groupDrop || ugDropsGroupLimit pre c
+    -- the hypotheses of the partial reload theorem, on the implementation's state before the reload
+    let n2 := parseCfg c
+    hypOk := hypOk && properCfgB c && noWildcardDropBesideNamed pre n2 &&
+      noDropAboveKept pre.userLimits n2.userLimits && noDropAboveKept pre.groupLimits n2.groupLimits &&
+      singleDrop pre.userLimits n2.userLimits && singleDrop pre.groupLimits n2.groupLimits
     model := updateConfig pre c
     -- Go iterates the old limit maps in random order: accept the outcome of any order of the resets
     let s := processConfig pre c
@@ -335,7 +342,7 @@ def ugmStep (st : UgmSt) (j : Json) : Except String (UgmSt × String) := do
       admitted := true
       live := live ++ [{ user := u, app := app, q := q, res := res }]
   | _ => return (st, "bad-op")
-  let st' : UgmSt := { m := impl, cfg := cfg, live := live, offc := offc, groupDrop := groupDrop }
+  let st' : UgmSt := { m := impl, cfg := cfg, live := live, offc := offc, groupDrop := groupDrop, hypOk := hypOk }
   -- model vs implementation
   let diff : Option String := match resultDiff with
     | some d => some s!"diff {d}"
@@ -362,7 +369,12 @@ def ugmStep (st : UgmSt) (j : Json) : Except String (UgmSt × String) := do
     | none => pure ()
   if !offc then bad := bad ++ ugUsageClause impl live groupDrop
   match cfg with
-  | some c => bad := bad ++ ugLimitsClause impl c
+  | some c =>
+    let lb := ugLimitsClause impl c
+    bad := bad ++ lb
+    -- limits_follow_config_reload_partial: no limit may be off while every reload met its hypotheses
+    if hypOk && !lb.isEmpty then
+      bad := bad ++ ["C05.reload-partial-violated every reload of this case met the hypotheses of limits_follow_config_reload_partial and a limit in force differs from the configuration"]
   | none => pure ()
   match diff with
   | some df => return (st', " ;; ".intercalate (df :: bad))
